@@ -28,11 +28,18 @@ Proof.
         destruct (differs (ls_lineno s) (ls_last s)); cbn [rev app]; [rewrite <- app_assoc; reflexivity | reflexivity].
 Qed.
 
-Lemma findlinestarts_lnotab_spec v first cl tab : tab <> [] ->
+Lemma findlinestarts_lnotab_spec v first cl tab :
   findlinestarts_lnotab (Some v) false first cl tab
   = spec_ls (tuple_geb v [3; 6]) (tuple_geb v [3; 8]) cl (pairs tab) 0 first None.
 Proof.
-  intros H. unfold findlinestarts_lnotab. destruct tab as [|a tab]; [congruence|].
+  unfold findlinestarts_lnotab. destruct tab as [|a tab]; [reflexivity|].
+  cbn [ls_flags]. rewrite ls_agree by reflexivity. reflexivity.
+Qed.
+
+Lemma findlinestarts_lnotab_spec_none first cl tab :
+  findlinestarts_lnotab None false first cl tab = spec_ls true true cl (pairs tab) 0 first None.
+Proof.
+  unfold findlinestarts_lnotab. destruct tab as [|a tab]; [reflexivity|].
   cbn [ls_flags]. rewrite ls_agree by reflexivity. reflexivity.
 Qed.
 
